@@ -3,7 +3,7 @@ From Coq Require Import List Arith Bool Lia.
 From SV Require Import Fmt.VTop.
 Import ListNotations.
 
-(* witness: file order A, R, M1, M2 with R -> M1 -> M2 -> A (R is the root). M1 is elected.
+(* the former witness: file order A, R, M1, M2 with R -> M1 -> M2 -> A (R is the root). M1 was elected; now R.
    Replayed on the implementation by corpus/verilog/t1-top-election-three-levels.json *)
 Definition wit_doc : list dmod := [(0, false, []); (1, false, [2]); (2, false, [3]); (3, false, [0])].
 
@@ -19,16 +19,57 @@ Proof.
     + exists (2, false, [3]). cbn. intuition lia.
 Qed.
 
-Lemma wit_elect : elect wit_doc = [2].
+(* the candidate found while parsing is M1 (the re-election walks one level); elect_top puts the root *)
+Lemma wit_elect_parsing : elect_parsing wit_doc = [2].
 Proof. vm_compute. reflexivity. Qed.
 
-Theorem top_is_root_refuted_lemma : ~ top_is_root.
+Lemma wit_elect : elect wit_doc = [1].
+Proof. vm_compute. reflexivity. Qed.
+
+Lemma instantiatedb_spec doc m : instantiatedb doc m = true <-> instantiated doc m.
 Proof.
-  intro H. specialize (H wit_doc 1 wit_single_root 2). rewrite wit_elect in H.
-  specialize (H (or_introl eq_refl)). discriminate.
+  unfold instantiatedb, instantiated. rewrite existsb_exists. split.
+  - intros [d [Hin H]]. apply andb_prop in H. destruct H as [H H3]. apply andb_prop in H. destruct H as [H1 H2].
+    exists d. split; [exact Hin|]. split; [|split].
+    + apply negb_true_iff in H1. apply Nat.eqb_neq in H1. exact H1.
+    + apply negb_true_iff in H2. exact H2.
+    + apply existsb_exists in H3. destruct H3 as [x [Hx E]]. apply Nat.eqb_eq in E. subst x. exact Hx.
+  - intros [d [Hin [H1 [H2 H3]]]]. exists d. split; [exact Hin|].
+    apply andb_true_intro. split; [apply andb_true_intro; split|].
+    + apply negb_true_iff. apply Nat.eqb_neq. exact H1.
+    + rewrite H2. reflexivity.
+    + apply existsb_exists. exists m. split; [exact H3|apply Nat.eqb_refl].
 Qed.
 
-(* what does hold: when the root module comes first in the file it is (and stays) the top *)
+Lemma nodup_all_same r : forall l : list nat, (forall x, In x l -> x = r) -> In r l -> nodup Nat.eq_dec l = [r].
+Proof.
+  induction l as [|a l IH]; intros Hall Hin; [contradiction|].
+  assert (a = r) by (apply Hall; left; reflexivity). subst a. cbn [nodup].
+  destruct (in_dec Nat.eq_dec r l) as [Hr|Hr].
+  - apply IH; [intros x Hx; apply Hall; right; exact Hx|exact Hr].
+  - destruct l as [|b l]; [reflexivity|]. exfalso. apply Hr. left. apply Hall. right. left. reflexivity.
+Qed.
+
+Lemma single_root_roots doc r : single_root doc r -> roots doc = [r].
+Proof.
+  intros [[insts Hr] [Hn Hall]]. unfold roots. apply nodup_all_same.
+  - intros x Hx. apply in_map_iff in Hx. destruct Hx as [d [E Hd]]. apply filter_In in Hd. destruct Hd as [Hd Hf].
+    apply andb_prop in Hf. destruct Hf as [Hc Hi]. apply negb_true_iff in Hc. apply negb_true_iff in Hi.
+    destruct (Nat.eq_dec x r) as [Heq|Hne]; [exact Heq|]. exfalso.
+    assert (Hinst : instantiated doc (fst (fst d))) by (apply Hall; [exact Hd|exact Hc|rewrite E; exact Hne]).
+    apply instantiatedb_spec in Hinst. rewrite Hinst in Hi. discriminate.
+  - apply in_map_iff. exists (r, false, insts). split; [reflexivity|]. apply filter_In. split; [exact Hr|]. cbn [fst snd negb andb].
+    destruct (instantiatedb doc r) eqn:E; [|reflexivity]. apply instantiatedb_spec in E. contradiction.
+Qed.
+
+(* the property's clause holds of the repaired reader: in every file order, the single root is the top *)
+Theorem top_is_root_lemma : top_is_root.
+Proof.
+  intros doc r Hr t Ht. unfold elect in Ht. rewrite (single_root_roots doc r Hr) in Ht.
+  destruct Ht as [<-|[]]. reflexivity.
+Qed.
+
+(* the candidate found while parsing: when the root module comes first in the file it is (and stays) that candidate *)
 Lemma step_inst_keeps r m ref tops ps :
   ref <> r -> (forall t, In t tops -> t = r) ->
   forall t, In t (fst (step_inst m (tops, ps) ref)) -> t = r.
@@ -63,9 +104,9 @@ Qed.
 
 Theorem root_first_is_top_lemma : forall r insts rest,
   (forall d, In d ((r, false, insts) :: rest) -> snd (fst d) = false -> ~ In r (snd d)) ->
-  forall t, In t (elect ((r, false, insts) :: rest)) -> t = r.
+  forall t, In t (elect_parsing ((r, false, insts) :: rest)) -> t = r.
 Proof.
-  intros r insts rest Hn t Hin. unfold elect in Hin. cbn [fold_left step_mod fst snd] in Hin.
+  intros r insts rest Hn t Hin. unfold elect_parsing in Hin. cbn [fold_left step_mod fst snd] in Hin.
   apply (fold_mod_keeps r rest) in Hin; [exact Hin|intros; apply Hn; [right|]; assumption|].
   apply fold_inst_keeps; [apply (Hn (r, false, insts)); [left; reflexivity|reflexivity]|].
   intros t' [<-|[]]. reflexivity.
